@@ -14,10 +14,14 @@ thread_local! {
     static HASH_STATE: Cell<Option<u64>> = const { Cell::new(None) };
     /// (origin in ns since the epoch, ns advanced per reading, readings so far)
     static CLOCK: Cell<Option<(i128, i128, i128)>> = const { Cell::new(None) };
+    /// process id reported to the code under test on this thread
+    static FAKE_PID: Cell<Option<i32>> = const { Cell::new(None) };
 }
 
 /// Install the key stream (and optionally a simulated clock) of the simulated process instance running on this thread.
 pub fn enter_instance(hash_seed: u64, clock_origin_ns: Option<i128>) {
+    // every simulated process instance has its own pid (derived from its seed), like a real process would
+    FAKE_PID.with(|p| p.set(Some(1000 + (hash_seed % 4_000_000) as i32)));
     HASH_STATE.with(|h| h.set(Some(hash_seed)));
     CLOCK.with(|c| c.set(clock_origin_ns.map(|o| (o, 1_000_000, 0))));
 }
@@ -67,6 +71,16 @@ pub unsafe extern "C" fn clock_gettime(clk: i32, ts: *mut Timespec) -> i32 {
             0
         }
         None => libc::syscall(libc::SYS_clock_gettime, clk, ts) as i32,
+    }
+}
+
+/// # Safety
+/// libc ABI.
+#[no_mangle]
+pub unsafe extern "C" fn getpid() -> i32 {
+    match FAKE_PID.try_with(|p| p.get()).ok().flatten() {
+        Some(p) => p,
+        None => libc::syscall(libc::SYS_getpid) as i32,
     }
 }
 
